@@ -30,7 +30,7 @@ IsEq(ev) == ev.k = "eq" \/ ev.k = "txt"
 \* ---- structure law: the re-parsed script has the tree of the original (for "txt": both parses have the tree the text
 \* denotes). ev.to / ev.tr are projections of the original / re-parsed script's program (harness shapeOf; op "?" = not
 \* available). Normalisations: parenthesis groups "(" are transparent, "~=" is "=~", a regex source is compared modulo the
-\* backslash the printer puts before a slash, numbers by value (2.0 prints as 2), list constants and sub-paths only by kind.
+\* backslash the printer puts before a slash, numbers by type and value, list constants and sub-paths only by kind.
 \* Judged for trees of binary operators (the program does not delimit the operand of "!" and of functions reliably).
 RECURSIVE NormRx(_)
 NormRx(p) == IF Len(p) = 0 THEN <<>>
@@ -39,8 +39,11 @@ NormRx(p) == IF Len(p) = 0 THEN <<>>
 LeafEq(fv, av) ==
     IF fv.t \in {"list", "other"} \/ av.t = "arr" THEN TRUE
     ELSE IF fv.t = "rx" /\ av.t = "rx" THEN NormRx(fv.p) = NormRx(av.p)
-    ELSE IF IsNum(fv) /\ IsNum(av) THEN (IF Modelled(fv) /\ Modelled(av) THEN NumCmp(fv, av) = 0
-                                         ELSE fv.t = av.t /\ "s" \in DOMAIN fv /\ "s" \in DOMAIN av /\ fv.s = av.s)
+    \* numbers: the same TYPE (a float constant stays a float: 1 / 2.0 is not 1 / 2) and the same value, -0.0 stays -0.0
+    ELSE IF IsNum(fv) /\ IsNum(av) THEN /\ fv.t = av.t
+                                         /\ ("negzero" \in DOMAIN fv) = ("negzero" \in DOMAIN av)
+                                         /\ (IF Modelled(fv) /\ Modelled(av) THEN NumCmp(fv, av) = 0
+                                             ELSE "s" \in DOMAIN fv /\ "s" \in DOMAIN av /\ fv.s = av.s)
     ELSE DeepEq(fv, av)
 IsLeaf(e) == e.op \in {"const", "path"}
 RECURSIVE AllBinary(_)
@@ -74,10 +77,10 @@ Verdict14(ev) ==
 \* ---- locus of a path case: the fragment kinds of the (shrunk) expression, keys by byte class
 Alnum(b) == (48 <= b /\ b <= 57) \/ (65 <= b /\ b <= 90) \/ (97 <= b /\ b <= 122) \/ b = 95
 KeyClass(k) == IF Len(k) = 0 THEN "empty"
+               ELSE IF \E i \in 1..Len(k) : k[i] \in {192, 193} \/ k[i] >= 245 THEN "badutf8"     \* bytes that never occur in UTF-8 (first: its defect dominates)
                ELSE IF \E i \in 1..Len(k) : k[i] = 39 THEN "quote"
                ELSE IF \E i \in 1..Len(k) : k[i] = 92 THEN "backslash"
                ELSE IF \E i \in 1..Len(k) : k[i] < 32 \/ k[i] = 127 THEN "control"
-               ELSE IF \E i \in 1..Len(k) : k[i] \in {192, 193} \/ k[i] >= 245 THEN "badutf8"     \* bytes that never occur in UTF-8
                ELSE IF \E i \in 1..Len(k) : k[i] >= 128 THEN "nonascii"
                ELSE IF \A i \in 1..Len(k) : Alnum(k[i]) THEN (IF 48 <= k[1] /\ k[1] <= 57 THEN "digits" ELSE "plain")
                ELSE "punct"
